@@ -77,6 +77,22 @@ package gzip
 //@   modifies ghost:gzAnnounced, ghost:committed, ghost:gzBody, gzipResponseWriter.statusCodeWritten
 //@   ensures gzBody == old(gzBody) + 1 && w.statusCodeWritten && (old(w.statusCodeWritten) ==> (gzAnnounced == old(gzAnnounced) && committed == old(committed))) && (!old(w.statusCodeWritten) ==> (gzAnnounced == 1 && committed == old(committed) + 1))
 
+//@ // "Content-Length is absent or correct": the filter writer adds no header of its own. What the inner handler set is what
+//@ // an uncompressed response goes out with (the gzip writer's WriteHeader is the only place that edits headers, and only
+//@ // for a response it compresses). headerEdits counts Set/Del/Add on the response header map reached through r.
+//@ ghost headerEdits int
+//@ extern (net/http.Header).Set
+//@   watch
+//@   modifies ghost:headerEdits
+//@   ensures headerEdits == old(headerEdits) + 1
+//@ extern (net/http.Header).Del
+//@   watch
+//@   modifies ghost:headerEdits
+//@   ensures headerEdits == old(headerEdits) + 1
+//@ extern (net/http.Header).Add
+//@   watch
+//@   modifies ghost:headerEdits
+//@   ensures headerEdits == old(headerEdits) + 1
 //@ define coherent(r *ResponseFilterWriter) bool = r.gzipResponseWriter != nil && r.gzipResponseWriter.ResponseWriterWrapper != nil && (r.statusCodeWritten ==> ((r.shouldCompress ==> (gzAnnounced == 1 && r.gzipResponseWriter.statusCodeWritten)) && (!r.shouldCompress ==> gzAnnounced == 0))) && (!r.statusCodeWritten ==> (gzAnnounced == 0 && !r.gzipResponseWriter.statusCodeWritten))
 
 //@ func (*ResponseFilterWriter).WriteHeader
@@ -85,6 +101,7 @@ package gzip
 //@   ensures [commits_once] committed == old(committed) + 1
 //@   ensures [coherent] coherent(r) && r.statusCodeWritten
 //@   ensures [announce_iff_compress] (r.shouldCompress ==> gzAnnounced == 1) && (!r.shouldCompress ==> gzAnnounced == 0)
+//@   ensures [adds_no_header_of_its_own] headerEdits == old(headerEdits)
 //@   loop 1 invariant 0 <= #i && #i <= len(r.filters) && r.filters == old(r.filters) && r.gzipResponseWriter == old(r.gzipResponseWriter) && gzAnnounced == old(gzAnnounced) && committed == old(committed) && !r.statusCodeWritten && coherent(r)
 
 //@ func (*ResponseFilterWriter).Write
@@ -95,6 +112,7 @@ package gzip
 //@   ensures [gzip_bytes_announced] gzBody > old(gzBody) ==> gzAnnounced == 1
 //@   ensures [raw_bytes_not_announced] rawBody > old(rawBody) ==> gzAnnounced == 0
 //@   ensures [commit_at_most_once] committed <= old(committed) + 1 && (old(r.statusCodeWritten) ==> committed == old(committed))
+//@   ensures [adds_no_header_of_its_own] headerEdits == old(headerEdits)
 
 //@ unit gzip_handler props=C12,C18 filter=`gzip\.Gzip\)\.ServeHTTP$`
 //@ ghost nextCalls int
